@@ -227,6 +227,9 @@ type HistCase struct {
 	Palette  []string  `json:"palette"`
 	Initial  []LeafSel `json:"initial,omitempty"`
 	Steps    []Step    `json:"steps"`
+	// InitDropKeyLeaves: the device did not report some key leaves of the initial running configuration
+	// (indices into the sorted list of its key-leaf paths)
+	InitDropKeyLeaves []int `json:"init_drop_key_leaves,omitempty"`
 }
 
 var PrioPool = []int32{5, 10, 11, 20, 50, 100, 1000, 65000, 1000000, 7}
@@ -718,6 +721,25 @@ func jsonScalarT(st scalarType, den string, ietf bool) any {
 }
 
 // BuildIntentRequest renders a resolved intent in its input form.
+// JSONLeafValue renders the JSON value (RFC 7951 style with ietf) of one leaf / leaf-list as it would appear in a document.
+func JSONLeafValue(p IPath, den string, ietf bool) ([]byte, error) {
+	doc, err := jsonDoc(Conf{p.Canon(): den}, ietf)
+	if err != nil {
+		return nil, err
+	}
+	var cur any = doc
+	for cur != nil {
+		m, ok := cur.(map[string]any)
+		if !ok || len(m) != 1 {
+			break
+		}
+		for _, v := range m {
+			cur = v
+		}
+	}
+	return json.Marshal(cur)
+}
+
 func BuildIntentRequest(ri ResolvedIntent) (*sdcpb.TransactionIntent, error) {
 	req := &sdcpb.TransactionIntent{Intent: ri.Name, Priority: ri.Prio}
 	switch ri.Kind {
@@ -801,6 +823,19 @@ func NewHistEnv(ctx context.Context, env *Env, c *HistCase, o HistEnvOpts) (*His
 	}
 	// a valid running configuration holds at most one case per choice
 	init = WithImplied(FilterOneCasePerChoice(order, init))
+	if len(c.InitDropKeyLeaves) > 0 {
+		var kl []string
+		for _, k := range init.SortedKeys() {
+			if MustCanon(k).IsKeyLeaf() {
+				kl = append(kl, k)
+			}
+		}
+		for _, i := range c.InitDropKeyLeaves {
+			if len(kl) > 0 {
+				delete(init, kl[i%len(kl)])
+			}
+		}
+	}
 	dev := NewDevice(init)
 	dso := o.DS
 	if dso.Name == "" {
